@@ -71,7 +71,9 @@ FINGERPRINTS = {
     "stepup/core/startup.py:rescan_nglobs": ("447d45a8dbb23181",),
     # first shape: stale CONFIRMED results are dropped (fix a139b14); second: the shape before it
     "stepup/core/executor.py:Executor._run_hash_job": ("1c00d122f33c1535", "d18aa73b3fe5cff5"),
-    "stepup/core/executor.py:Executor.try_skip_job": ("decd09f009978afd",),
+    # first shape: the recording transaction re-reads the input records and sends an overtaken check back to
+    # PENDING with its hash (fix 3ce20a7, D37); second: the shape before it
+    "stepup/core/executor.py:Executor.try_skip_job": ("cd8f2ddadd897a04", "decd09f009978afd"),
     # first shape: an unchanged validation leaves the step PENDING *and deferred* (fix d760e3e, D36);
     # second: PENDING without the flag (the same job is dispatched again at once)
     "stepup/core/executor.py:Executor.validate_dynamic_job": ("c64f8ccfa4c864d5", "5c3f511f7670d82c"),
@@ -372,6 +374,12 @@ def generate(check=True):
             if fp not in TEXT_FINGERPRINTS.get(key, ()):
                 raise TranslatorError(f"{key}: SQL text {fp} is not the one the C04 model was written against")
         want = sorted(tuple(s) for s in PENDING_SITES)
+        # since fix 3ce20a7 try_skip_job has one more site: an overtaken check goes back to PENDING (the step is
+        # CHECKING, hence in flight and in the cone; the stored workflow model has no transaction for it yet)
+        overtaken = ('executor', 'Executor.try_skip_job', 'set_state(PENDING)')
+        facts["skip_overtaken_site"] = overtaken in sites
+        if overtaken in sites and overtaken not in want:
+            want = sorted(want + [overtaken])
         if sites != want:
             new = [s for s in sites if s not in want]
             gone = [s for s in want if s not in sites]
